@@ -414,7 +414,21 @@ def fam_gym_shipped(seed, shard, nshards, n):
         for k in range(per):
             enc = rng.choice(['default', 'no-overlap', 'compact'])
             mode = rng.choice(['make', 'direct', 'state'])
-            if mode == 'make':
+            kspec = spec
+            if mode != 'make' and rng.random() < 0.35:
+                # the same description with another action list: index i is the i-th listed action
+                from gym_gridverse.outer_env import OuterEnv
+                from gym_gridverse.representations.observation_representations import make_observation_representation
+
+                d2 = copy.deepcopy(data)
+                names = [a.name for a in ACTIONS]
+                rng.shuffle(names)
+                d2['action_space'] = names[: rng.randint(2, len(names))]
+                kspec = envspec.env_tokens(d2)
+                inner = factory_env_from_data(copy.deepcopy(d2))
+                genv = GymEnvironment(OuterEnv(inner, observation_representation=make_observation_representation('default', inner.observation_space)))
+                wrapper = genv
+            elif mode == 'make':
                 wrapper = gym.make(gid, disable_env_checker=True)
                 genv = wrapper.unwrapped
             else:
@@ -440,7 +454,7 @@ def fam_gym_shipped(seed, shard, nshards, n):
                 else:
                     ops.append(('W' if with_state else 'T', idx))
             opstr, exp = run_gym_history(genv, wrapper, ops, rng.randrange(2**31))
-            yield f'gym {spec} {enc} {int(with_state)} {opstr}', exp, f'gym-{mode}-{enc}'
+            yield f'gym {kspec} {enc} {int(with_state)} {opstr}', exp, f'gym-{mode}-{enc}' + ('-actions-permuted' if kspec is not spec else '')
 
 
 # ---------------------------------------------------------------------------------------------
